@@ -18,7 +18,7 @@ use serde_json::{json, Value};
 use std::collections::{BTreeMap, BTreeSet, HashSet};
 use std::path::{Path, PathBuf};
 
-pub const RULE: &str = "four generated families. workloads: sequences of 4-14 operations (analyse / scan-path analyse / re-analyse, and every public query of the library) over 2-4 files sharing 3 fixture names with star imports of each other (cycles included), run single-threaded with the nesting log on, in 2-shard and all-keys-collide placement. schedules: 2-3 such workloads on controlled threads under random and context-bounded schedules (deadlock = controller finds no runnable thread). cyclic: self / mutual / long import cycles, self- and mutually dependent fixtures, directory chains and import chains up to 200 deep, each operation under a bound of 200,000 lock acquisitions (run on a 2 GiB stack so that runaway recursion meets the bound first). server: generated LSP sessions (didOpen / didChange with requests pipelined 1-4 deep, every request kind) against the real server sources compiled with the instrumented DashMap, VERIF_DASHMAP_COLLIDE=1 (aborts on a conflicting re-entrant shard-lock request) and a nesting log. Non-trivial = the run recorded >=1 nested acquisition or the input contains a cycle; distinct = distinct generated values.";
+pub const RULE: &str = "four generated families. workloads: sequences of 4-14 operations (analyse / scan-path analyse / re-analyse, and every public query of the library) over 2-4 files sharing 3 fixture names with star imports of each other (cycles included), run single-threaded with the nesting log on, in 2-shard and all-keys-collide placement. schedules: 2-3 such workloads on controlled threads under random and context-bounded schedules (deadlock = controller finds no runnable thread). cyclic: self / mutual / long import cycles, self- and mutually dependent fixtures, acyclic layered dependency graphs (up to 200 layers of 2-4 fixtures, each requesting the whole next layer), directory chains and import chains up to 200 deep, each operation under a bound of 200,000 lock acquisitions and the cycle search under a bound of 1,000,000 iterations of its own counter (run on a 2 GiB stack so that runaway recursion meets the bound first). server: generated LSP sessions (didOpen / didChange with requests pipelined 1-4 deep, every request kind) against the real server sources compiled with the instrumented DashMap, VERIF_DASHMAP_COLLIDE=1 (aborts on a conflicting re-entrant shard-lock request) and a nesting log. Non-trivial = the run recorded >=1 nested acquisition or the input contains a cycle; distinct = distinct generated values.";
 pub const ASSUMPTIONS: &[&str] = &[
     "dashmap's shard lock is reader-preferring: a shared request succeeds while no writer HOLDS the lock, so read-in-read on one map is the only safe re-entrancy; two holds conflict iff one is exclusive",
     "potential deadlocks are inferred only from nestings some generated workload actually executed; entry points with zero executions make the run inconclusive",
@@ -371,14 +371,18 @@ pub fn check_conc(c: &Conc, info: &mut CaseInfo) -> Outcome {
 #[derive(Clone, Debug, Serialize, Deserialize)]
 pub struct Cyclic {
     /// 0 self import, 1 import cycle of length n, 2 self-dependent fixture (with/without parent), 3 mutual dependency ring of n,
-    /// 4 directory chain of depth n, 5 import chain of length n, 6 pytest_plugins cycle
+    /// 4 directory chain of depth n, 5 import chain of length n, 6 pytest_plugins cycle,
+    /// 7 acyclic layered dependency graph: n layers of 2-4 fixtures, each requesting every fixture of the next layer
     pub kind: u8,
     pub n: u8,
     pub variant: u8,
 }
 
+/// iteration limit of the cycle search per case (see check_cyclic_inner)
+pub const DFS_LIMIT: u64 = 1_000_000;
+
 pub fn cyclic() -> impl Strategy<Value = Cyclic> {
-    (0u8..7, prop_oneof![3 => 1u8..7, 1 => Just(60u8), 1 => Just(200u8)], 0u8..4).prop_map(|(kind, n, variant)| Cyclic { kind, n, variant })
+    (prop_oneof![7 => 0u8..7, 2 => Just(7u8)], prop_oneof![3 => 1u8..7, 1 => Just(60u8), 1 => Just(200u8)], 0u8..4).prop_map(|(kind, n, variant)| Cyclic { kind, n, variant })
 }
 
 pub fn check_cyclic(c: &Cyclic, info: &mut CaseInfo) -> Outcome {
@@ -393,15 +397,15 @@ fn check_cyclic_inner(c: &Cyclic, info: &mut CaseInfo) -> Outcome {
     let n = (c.n as usize).max(1);
     let mut files: Vec<(String, String)> = vec![];
     let dir = "/vw/cyc";
-    match c.kind % 7 {
+    match c.kind % 8 {
         0 => files.push((format!("{}/conftest.py", dir), "import pytest\nfrom .conftest import *\nfrom conftest import fx\n\n@pytest.fixture\ndef fx():\n    return 1\n".into())),
         1 | 6 => {
             for i in 0..n {
                 let next = (i + 1) % n;
-                let imp = if c.kind % 7 == 6 { format!("pytest_plugins = [\"m{}\"]", next) } else if c.variant % 2 == 0 { format!("from .m{} import *", next) } else { format!("from m{} import fx{}", next, next) };
+                let imp = if c.kind % 8 == 6 { format!("pytest_plugins = [\"m{}\"]", next) } else if c.variant % 2 == 0 { format!("from .m{} import *", next) } else { format!("from m{} import fx{}", next, next) };
                 files.push((format!("{}/m{}.py", dir, i), format!("import pytest\n{}\n\n@pytest.fixture\ndef fx{}():\n    return {}\n", imp, i, i)));
             }
-            files.push((format!("{}/conftest.py", dir), if c.kind % 7 == 6 { "pytest_plugins = \"m0\"\n".into() } else { "from .m0 import *\n".into() }));
+            files.push((format!("{}/conftest.py", dir), if c.kind % 8 == 6 { "pytest_plugins = \"m0\"\n".into() } else { "from .m0 import *\n".into() }));
         }
         2 => {
             if c.variant % 2 == 0 {
@@ -413,6 +417,17 @@ fn check_cyclic_inner(c: &Cyclic, info: &mut CaseInfo) -> Outcome {
             let mut s = String::from("import pytest\n");
             for i in 0..n {
                 s.push_str(&format!("\n@pytest.fixture\ndef ring{}(ring{}):\n    return 1\n", i, (i + 1) % n));
+            }
+            files.push((format!("{}/conftest.py", dir), s));
+        }
+        7 => {
+            let w = 2 + (c.variant % 3) as usize;
+            let mut s = String::from("import pytest\n");
+            for l in 0..n {
+                for k in 0..w {
+                    let deps: Vec<String> = if l + 1 < n { (0..w).map(|j| format!("lay{}_{}", l + 1, j)).collect() } else { vec![] };
+                    s.push_str(&format!("\n@pytest.fixture\ndef lay{}_{}({}):\n    return 1\n", l, k, deps.join(", ")));
+                }
             }
             files.push((format!("{}/conftest.py", dir), s));
         }
@@ -434,6 +449,10 @@ fn check_cyclic_inner(c: &Cyclic, info: &mut CaseInfo) -> Outcome {
     }
     files.push((format!("{}/test_use.py", dir), "def test_use(fx, fx0, selfy, ring0, top, link0, missing):\n    pass\n".into()));
     info.nontrivial = true;
+    // the cycle search takes no lock, so the lock-step bound cannot see it: its own iteration counter (hook in
+    // /repo, cfg-guarded) is limited to far more than a linear search needs on the largest generated graph
+    // (800 fixtures, 3200 dependency edges), far less than a search that enumerates paths
+    FixtureDatabase::verif_cycle_dfs_reset(DFS_LIMIT);
     let r = std::panic::catch_unwind(std::panic::AssertUnwindSafe(|| {
         for (p, t) in &files {
             hooks::reset_steps();
@@ -472,11 +491,18 @@ fn check_cyclic_inner(c: &Cyclic, info: &mut CaseInfo) -> Outcome {
         (total, cycles.len())
     }));
     hooks::set_step_limit(0);
+    let dfs_steps = FixtureDatabase::verif_cycle_dfs_reset(0);
+    if dfs_steps > 0 {
+        info.classes.push(format!("cycle-search-iterations<=10^{}", (dfs_steps as f64).log10().ceil() as u32));
+    }
     match r {
         Ok((total, ncycles)) => {
             info.checks += total;
+            if c.kind % 8 == 7 && ncycles != 0 {
+                return Outcome::Fail(format!("an acyclic layered dependency graph ({} layers) is reported to have {} cycle(s)", n, ncycles));
+            }
             // consistency with the structure: a dependency ring must be reported, an import ring must not invent one
-            if c.kind % 7 == 3 && ncycles == 0 {
+            if c.kind % 8 == 3 && ncycles == 0 {
                 return Outcome::Fail(format!("a dependency ring of {} fixtures is not reported as a cycle", n));
             }
             Outcome::Ok
